@@ -240,6 +240,12 @@ def c03(res, scenario) -> list[Violation]:
         if not res.outcome.startswith("raised"):
             out.append(Violation("c03:not-propagated",
                                  f"control-loop exception not propagated: outcome {res.outcome}", case))
+        elif not any(n in res.outcome for n in ("InjectedFault", "WeirdFault", "KeyboardInterrupt")):
+            # ... and it is the user's exception that reaches the caller (the one a later save callback raises in
+            # the final save is a user exception as well), not one a handler on the way produced in its place
+            out.append(Violation("c03:replaced:" + res.outcome.split(":")[1],
+                                 f"a user callback raised in the control loop, but launch() raised "
+                                 f"{res.outcome.split(':')[1]} in its place", case))
     # a failing teardown happens after the thread has already been told to stop
     bg_fault = [f for f in bg_fault if not f[1][2].endswith(".teardown")]
     if bg_fault:
@@ -639,8 +645,12 @@ def c08(res, scenario) -> list[Violation]:
             out.append(Violation(f"c08:framework-exception:{val}",
                                  f"the {th} thread died of {val}, raised by framework bookkeeping "
                                  f"(no user callback raised)", case))
+    # (what launch() raises after a user callback raised in the control thread is the handler's business: with an
+    # exception that cannot be formatted the launcher's own log line fails and a TypeError comes out instead -
+    # the run still ended for a cause)
+    user_fault = any(e[1] in ("cb_raise", "savecond_raise") for e in ev)
     if res.outcome.startswith("raised") and "InjectedFault" not in res.outcome and "WeirdFault" not in res.outcome and \
-            "KeyboardInterrupt" not in res.outcome:
+            "KeyboardInterrupt" not in res.outcome and not user_fault:
         out.append(Violation(f"c08:launch-raised:{res.outcome.split(':')[1]}",
                              f"launch() raised {res.outcome} without any user fault", case))
     if res.outcome.startswith("aborted") or not tm:
